@@ -164,6 +164,15 @@ func (w *pathWalker) enter(b, pred *ssa.BasicBlock, p *Path, on map[*ssa.BasicBl
 		}
 		newPhi := map[*ssa.Phi]ssa.Value{}
 		havoc := w.inline != nil && w.inline.Havoc && isLoopHeader(b)
+		if !havoc && isLoopHeader(b) && on[b] == 1 && !(pred == b || b.Dominates(pred)) {
+			// first arrival at a loop from outside. If the loop's continuation test is decided by the entry
+			// values (a constant trip count) the loop is unrolled; otherwise the walk covers "zero iterations"
+			// on the exit edge and "some iteration" in the body, and the values carried round the loop are
+			// unknown on both (they are NOT the entry values once the body has run)
+			if !w.headerFolds(pred, b, p) {
+				havoc = true
+			}
+		}
 		for _, in := range b.Instrs {
 			ph, ok := in.(*ssa.Phi)
 			if !ok {
